@@ -16,7 +16,7 @@ ASSUMPTIONS = [
     "objects are built through the constructors or the parser, which pre-fill the lazily cached Typ fields (struct-literal construction with nil caches is outside the property)",
     "module-level printers (String/WriteTo) or function/block printers on an already numbered module; see the recorded finding for mixed-level printing of a never-printed module",
 ]
-RULE = ("race-detector runs: for every corpus module and 6 constructed modules with unnamed globals/locals/metadata, G goroutines call String / WriteTo / piecewise "
+RULE = ("read-only printing oracle (deep fingerprint of every reachable field before/after printing an already numbered module) on corpus, catalogue and generated modules; race-detector runs: for every corpus module and 6 constructed modules with unnamed globals/locals/metadata, G goroutines call String / WriteTo / piecewise "
         "LLString+Ident+Type concurrently, from the never-printed and from the already-printed state, R rounds; every text must equal the sequential text; "
         "non-trivial = every (module, state) pair is a distinct schedule sample")
 
@@ -28,11 +28,20 @@ def facts(res, harness):
 
 
 def gen(tier, rng, harness=None):
-    return []
+    """deterministic companion of the race runs: once the numbering passes (the only writers, which run under the locks) are done, printing at
+    every level must leave every reachable field unchanged (deep fingerprint before/after) — on the corpus, the catalogue and generated modules"""
+    from . import modprops, catalog
+    from .modprops import hx
+    lines = ["!conc.readonly %s" % hx(t) for t in modprops.corpus_texts()]
+    for _, text, _ in catalog.STRUCTURED + catalog.NAMED_NONSTRUCT + catalog.inst_entries() + catalog.DI:
+        lines.append("!conc.readonly %s" % hx(text))
+    for m, text, sk in modprops.gen_modules(rng, 60 if tier == "quick" else 3000):
+        lines.append("!conc.readonly %s" % hx(text))
+    return lines
 
 
 def nontrivial(ln, out):
-    return False
+    return len(ln) > 100
 
 
 def build_racer():
@@ -64,13 +73,20 @@ def extra(res, findings, tier, rng, harness, driver):
         res.violation("concurrent printing: %d data race report(s), %d text mismatch(es), exit %d; first: %s" % (races, len(mism), rc, first[:1500]),
                       {"ops": [], "racer_cmd": "%s %d %d module <corpus/ll/*.ll>" % (racer, g, rounds), "race_report": first})
     # mixed-level printing from the never-printed state: recorded finding
-    rc2, cases2, races2, mism2, err2 = run_racer(racer, 8, 2, "mixed", files[:6])
+    rc2, cases2, races2, mism2, err2 = run_racer(racer, 8, 2, "mixed", files[:6] + [x for x in files[6:] if "lazy" in x])
     if races2:
+        # only races whose WRITE side is the module's global numbering (GlobalIdent.SetID) belong to the recorded finding
+        reports = ["WARNING: DATA RACE" + r for r in err2.split("WARNING: DATA RACE")[1:]]
+        known = [r for r in reports if "GlobalIdent).SetID" in r]
+        other = [r for r in reports if "GlobalIdent).SetID" not in r]
         f = findings.match("C13", "racer.mixed", "mixed-level-fresh-print")
-        if f:
-            res.known[f["id"]] = (races2, f["what"])
-        else:
-            res.violation("mixed-level concurrent printing races: " + err2[:1500], {"ops": [], "racer_cmd": "%s 8 2 mixed ..." % racer})
+        if known and f:
+            res.known[f["id"]] = (len(known), f["what"])
+        elif known:
+            res.violation("mixed-level concurrent printing races: " + known[0][:1500], {"ops": [], "racer_cmd": "%s 8 2 mixed ..." % racer, "race_report": known[0][:3000]})
+        if other:
+            res.violation("concurrent printing (mixed levels): %d data race report(s) outside the recorded finding; first: %s" % (len(other), other[0][:1500]),
+                          {"ops": [], "racer_cmd": "%s 8 2 mixed <corpus files>" % racer, "race_report": other[0][:3000]})
     return {"evaluations": len(cases) + len(cases2), "distinct_nontrivial": len(set(cases)) + len(set(cases2)), "rule": RULE,
             "samples": cases[:3] + cases2[:2], "goroutines": g, "rounds": rounds, "race_reports_module_mode": races, "race_reports_mixed_mode": races2,
             "racer_wall_s": round(time.time() - t0, 1)}
